@@ -192,38 +192,49 @@ def r15_3(prog, out):
         n += 1
         bi = prog.info(bid)
         key = "pull-response:%s#%d" % (prog.short(bid), n)
-        # (a) timer branch: the body's only waits are constant sleeps and the response follows the sleep
+        # A response may be empty only (a) after the server-side timer fired, (c) when return_immediately is set; otherwise it
+        # is built (b) only when the pulled batch is not empty.  The three conditions may be combined in any way
+        # (`if got || return_immediately`): the response block must be unreachable once the three kinds of edges are removed.
         from props.c07 import is_const_sleep
+        from mapstate import _bool_switches
+        good = set()
+        why = []
         sleeps = [a for a in bi.awaits if await_class(prog, bi, a) == "sleep"]
-        if sleeps and all(is_const_sleep(prog, bi, a) for a in sleeps) and any(bi.cfg.dominates(a.poll_bb, bb) for a in sleeps):
-            out.holds(key, bi.loc(bb), "empty response of the server-side timer branch")
-            continue
-        # (b) under `!received.is_empty()`
-        def nonempty_pred(cbb, t):
-            return t.callee.path.split("::")[-1] == "is_empty" and "ReceivedMessage" in (bi.body.operand_ty(t.args[0]) or "")
-        R = roles(prog)
-        nonempty_blocks = R.call_result_arm_blocks(bi, nonempty_pred, False)
-        if bb in nonempty_blocks:
-            # reached without waiting first
-            out.holds(key, bi.loc(bb), "returned only when at least one message was pulled")
-            continue
-        # (c) under return_immediately
-        ri = set()
+        if sleeps and all(is_const_sleep(prog, bi, a) for a in sleeps):
+            for a in sleeps:
+                sw = bi.body.blocks[a.poll_bb].term.target
+                if sw is not None and a.ready_bb is not None:
+                    for s2 in bi.cfg.succ[sw]:
+                        if bi._skip_false(s2) == a.ready_bb or s2 == a.ready_bb:
+                            good.add((sw, s2))
+                            why.append("timer")
+        for cbb, t in bi.calls():
+            if t.callee.path.split("::")[-1] == "is_empty" and t.args and "ReceivedMessage" in (bi.body.operand_ty(t.args[0]) or "") \
+                    and t.dest is not None and t.dest.is_local():
+                for sw, tr, fa in _bool_switches(bi, t.dest.local):
+                    good.add((sw, fa))
+                    why.append("non-empty")
+        ri_cell = ("crate::pubsub_proto::PullRequest", "return_immediately")
         for blk in bi.body.blocks:
+            if blk.cleanup:
+                continue
+            for st in blk.stmts:
+                if st.k == "assign" and st.lhs.is_local() and st.rv.k == "use" and st.rv.ops[0].place is not None \
+                        and ri_cell in prog.receiver_origin(bi, st.rv.ops[0].place).cells() and prog.receiver_origin(bi, st.rv.ops[0].place).cells()[-1] == ri_cell:
+                    for sw, tr, fa in _bool_switches(bi, st.lhs.local):
+                        good.add((sw, tr))
+                        why.append("return_immediately")
             t = blk.term
-            if t.k == "switch" and t.discr is not None and t.discr.place is not None:
+            if t.k == "switch" and t.discr is not None and t.discr.place is not None and not t.discr.place.is_local():
                 o = prog.receiver_origin(bi, t.discr)
-                cells = set(o.cells())
-                if t.discr.place.is_local():
-                    for (db, di) in bi.defs.get(t.discr.place.local, []):
-                        if di >= 0:
-                            for op in bi.stmt(db, di).rv.ops:
-                                if op.place is not None:
-                                    cells |= set(prog.receiver_origin(bi, op.place).cells())
-                if ("crate::pubsub_proto::PullRequest", "return_immediately") in cells:
-                    ri |= bi.cfg.edge_dominated(blk.idx, t.otherwise)
-        if bb in ri:
-            out.holds(key, bi.loc(bb), "possibly empty response only when return_immediately is set")
+                if o.cells() and o.cells()[-1] == ri_cell:
+                    good.add((blk.idx, t.otherwise))
+                    why.append("return_immediately")
+        free = bi.cfg.reach_avoiding_edges(0, good)
+        if bb not in bi.cfg.reach:
+            continue
+        if bb not in free:
+            out.holds(key, bi.loc(bb), "built only after one of: %s" % ", ".join(sorted(set(why))))
         else:
             out.violation(key, bi.loc(bb), "a Pull response can be returned here although it may be empty, return_immediately is not set and the server-side timer has not fired")
     if n < 2:
